@@ -180,6 +180,24 @@ func init() {
 	drivers["intS"] = func(g *G) {
 		arithS(g, []string{"quoint", "rem"}, []string{"quantize", "tointx", "tointv", "ceil", "floor", "reduce"}, true)
 	}
+	drivers["reduceL"] = func(g *G) {
+		arithS(g, nil, []string{"reduce"}, true)
+		arithLInt(g, []string{"reduce"})
+		// precision 0 (rounding disabled): exact
+		for i := 0; i < g.pick(3000, 100000); i++ {
+			c := Ctx{P: 0, Emin: -100000, Emax: 100000, R: modeNames[g.R.Intn(8)]}
+			x := g.R.randL(20, 50)
+			if g.R.bool() {
+				k := g.R.between(1, 25)
+				b := bigOfLimbs(x.C)
+				for j := 0; j < k; j++ {
+					b.Mul(b, bigInt(10))
+				}
+				x = finDec(x.N, b, x.E)
+			}
+			g.emit(mkA("reduce", c, x, x, 0, "", fresh), "reduce-p0")
+		}
+	}
 	drivers["intL"] = func(g *G) {
 		arithLInt(g, []string{"quoint", "rem", "quantize", "tointx", "tointv", "ceil", "floor", "reduce"})
 	}
